@@ -6,6 +6,7 @@ import typing as t
 
 from docutils import nodes
 from docutils.transforms import Transform
+from docutils.transforms.frontmatter import DocTitle
 from docutils.transforms.misc import Transitions
 from docutils.transforms.references import Footnotes
 from markdown_it.common.normalize_url import normalizeLink
@@ -89,6 +90,29 @@ class HideNestedTransitions(Transform):
                 pending = nodes.pending(_RestoreTransition, {"transition": node})
                 self.document.note_pending(pending)
                 node.replace_self(pending)
+
+
+class CleanDocumentTitle(Transform):
+    """Keep warnings inside the promoted document title out of the document's ``title`` attribute.
+
+    docutils' ``DocTitle`` transform takes the attribute from ``astext()`` of the title,
+    which includes the text of any system message within it.
+    """
+
+    default_priority = DocTitle.default_priority + 1
+
+    def apply(self, **kwargs: t.Any) -> None:
+        """Apply the transform."""
+        if not (len(self.document) and isinstance(self.document[0], nodes.title)):
+            return
+        title = self.document[0]
+        if self.document.get("title") != title.astext():
+            # set explicitly (``title`` setting or directive)
+            return
+        title = title.deepcopy()
+        for msg in list(findall(title)(nodes.system_message)):
+            msg.parent.remove(msg)
+        self.document["title"] = title.astext()
 
 
 class SortFootnotes(Transform):
